@@ -54,7 +54,7 @@ CLAIMS = {
          "RSA keys drawn as numbers (1..4200-bit moduli around every DER length-form and leading-zero boundary, small/large exponents) must round-trip through both SPKI forms and equal the prescribed RSASSA-PSS DER; issuers of all four types must report SHA-256 of a serialization recomputed without pat-go; requests must carry the last id byte resp. SHA-256 of the 39-byte name key.",
          "DESIGN.md section 4 C18", "ristretto255 serialization reference is circl."),
  "C20": ("bounded-exhaustive enumeration of name lengths + rapid PBT of near-miss names with a metamorphic size law",
-         "Every name length 0..130 (thorough 0..4096) and every 32-multiple +-1 to 4096 (thorough: up to the 65228-byte wire maximum) is requested against an issuer that registered exactly that name (must serve) and against one that registered only near-misses (must refuse); names needing the same number of 32-byte blocks must give equal wire lengths, different block counts different lengths. Drawn names add content variety (interior NULs, non-ASCII) and near-miss requests against the exact name.",
+         "Every name length 0..130 (thorough 0..4096) and every 32-multiple +-1 to 4096 (thorough: up to the 65216-byte wire maximum) is requested against an issuer that registered exactly that name (must serve) and against one that registered only near-misses (must refuse); names needing the same number of 32-byte blocks must give equal wire lengths, different block counts different lengths. Drawn names add content variety (interior NULs, non-ASCII) and near-miss requests against the exact name.",
          "DESIGN.md section 4 C20", ""),
  "C01": ("rapid PBT of complete wire runs per token type against independent verification (circl FullEvaluate, crypto/rsa.VerifyPSS) and a byte-level token layout oracle",
          "Generated honest runs of all four token types in which request and response cross the wire as copied bytes into fresh objects; keys, challenges of any length, nonces, batch sizes (incl. varint-boundary sizes), origin names, client randomness (DRBG seeded from drawn values) and the WithBlind entry points are all drawn. Exploration: the property is a for-all over inputs with a cheap exact oracle.",
